@@ -381,6 +381,41 @@ def buildBlock {St Tx} (C : Comp St Tx) (cfg : Cfg) (emptyRoot emptyUncle : Hash
     let h2 := { h1 with root := fs.2 }
     .ok { block := newBlock C emptyRoot emptyUncle h2 txs uncles rcs, st := fs.1, receipts := rcs }
 
+/-- outcome of `Work.commitTransactions` (opt/miner/worker.go): the transactions that made it into the block and what they left. -/
+structure Committed (St Tx : Type) where
+  st : St
+  included : List Tx
+  receipts : List Receipt
+  pool : Nat
+  used : Nat
+
+/-- `Work.commitTransactions` / `commitTransaction`: the miner walks over CANDIDATE transactions (the pool's pending lists);
+    each is attempted with `ApplyTransaction` inside `snap := state.Snapshot()` … `state.RevertToSnapshot(snap)`: a candidate that
+    cannot be applied (nonce too low / too high, gas pool exhausted, insufficient balance AFTER the nonce was bumped and the gas
+    bought, …) is skipped and leaves state, receipts and `header.GasUsed` exactly as they were before the attempt.  The gas pool is
+    not part of the journalled state: `skipPool pool tx` is what is left of it after a failed attempt (Go: unchanged when the
+    failure precedes `buyGas`, reduced by the transaction's gas limit otherwise). -/
+def commitTxs {St Tx} (C : Comp St Tx) (cfg : Cfg) (h : Header) (author : Option Addr) (skipPool : Nat → Tx → Nat) :
+    St → Nat → Nat → List Tx → Committed St Tx
+  | st, pool, used, [] => { st := st, included := [], receipts := [], pool := pool, used := used }
+  | st, pool, used, tx :: rest =>
+    match applyTransaction C cfg h author st pool used tx with
+    | .error _ => commitTxs C cfg h author skipPool st (skipPool pool tx) used rest
+    | .ok (st1, rc, pool1, used1) =>
+      let r := commitTxs C cfg h author skipPool st1 pool1 used1 rest
+      { r with included := tx :: r.included, receipts := rc :: r.receipts }
+
+/-- `worker.commitNewWork` with a pending set: fork edits, `commitTransactions` over the candidates, `engine.Finalize`, `NewBlock`
+    over the transactions that were committed. -/
+def buildBlockPending {St Tx} (C : Comp St Tx) (cfg : Cfg) (emptyRoot emptyUncle : Hash) (parent : Header) (pst : St)
+    (coinbase : Addr) (time extra : Nat) (skipPool : Nat → Tx → Nat) (cands : List Tx) (uncles : List Header) : Built St Tx :=
+  let h0 := makeHeader C parent coinbase time extra
+  let r := commitTxs C cfg h0 (some h0.coinbase) skipPool (forkEdits C cfg h0.number pst) h0.gasLimit h0.gasUsed cands
+  let h1 := { h0 with gasUsed := r.used }
+  let fs := finalizeState C cfg r.st h1 uncles
+  let h2 := { h1 with root := fs.2 }
+  { block := newBlock C emptyRoot emptyUncle h2 r.included uncles r.receipts, st := fs.1, receipts := r.receipts }
+
 /-! ## Layer C — the chain store and `insertChain` -/
 
 /-- state-side validation of a block on a parent state: `Process` then `ValidateState`.  On success the returned state is
